@@ -109,6 +109,12 @@ func runC07(c *Ctx) {
 				d, ok := hasFact(fs, func(f Fact) bool {
 					return !f.Pol && f.T.Op == "extract" && f.T.Name == "1" && f.T.Args[0].Op == "lookup" && f.T.Args[0].Args[0].String() == mt
 				})
+				// … and from the allocation of THAT queue: the queue whose share is read is looked up under the key
+				// that is being initialised
+				kt := termOf(mu.Key).String()
+				sameKey := termOf(mu.Value).contains(func(x *Term) bool { return x.Op == "lookup" && x.Args[1].String() == kt })
+				c.Check(sameKey, "O2", "PROV", funcKey(fn)+": a queue's remaining share starts from that queue's own allocation", instrPos(in), "queues[k].GetAllocatedShare() stored under k",
+					"the remaining share of one queue is initialised from the allocation of another ("+trunc(termOf(mu.Value).String(), 120)+" stored under "+trunc(kt, 60)+"): an ancestor shared with the reclaimer looks emptier than it is, and the boundary check that keeps the reclaimer's ancestors within their fair share stops rejecting")
 				c.Check(ok, "O2", "DOM", funcKey(fn)+": remaining share initialised only when absent", instrPos(in), trunc(d, 160), "the remaining share of a queue is (re)initialised from its current allocation although an entry exists: resources already taken from it in this scenario are forgotten")
 			}
 		}
